@@ -189,6 +189,24 @@ def replay(source, filename, universe, client_programs, steps, pool_args=None, t
     """
     U = universe
     mod, path = load_module(source, filename)
+    fail_start = {"next": False}
+
+    class FailingThread(threading.Thread):
+        """threading.Thread whose start() fails on demand (model choice 'start failure')"""
+
+        def start(self):
+            if fail_start["next"]:
+                fail_start["next"] = False
+                raise RuntimeError("can't start new thread")
+            return threading.Thread.start(self)
+
+    class ThreadingProxy(object):
+        def __getattr__(self, name):
+            if name == "Thread":
+                return FailingThread
+            return getattr(threading, name)
+
+    mod.threading = ThreadingProxy()
     files = {path, "<scenario>"} | {"<client{0}>".format(c) for c in range(U.C)}
     baton = Baton(files)
     baton.next_worker = U.C
@@ -276,6 +294,8 @@ def replay(source, filename, universe, client_programs, steps, pool_args=None, t
                         raise ReplayMismatch("thread {0} parked at {1}:{2}, model expects {3}:{4} ({5})".format(
                             tid, os.path.basename(here[0]), here[1], os.path.basename(str(want[0])), want[1], node.label))
                     baton.grant(tid)
+                if node.label == "Thread.start" and choice == 1:
+                    fail_start["next"] = True
                 baton.grant(tid)
                 executed += 1
                 baton.log.append((tid, want[1], node.label))
